@@ -139,6 +139,13 @@ class TemperatureMonitor(fitsim.Monitor):
         if ti != 1 / t:
             violation(self.out, "temperature_envelope", "inverse_not_one_over_T", f"k={k}: T={t!r} T_inv={ti!r}")
 
+    def after_sample(self, w, k, var):
+        # the temperature that matters is the one the samplers are handed: it is the scheduled one, for every variable of the iteration
+        ti = getattr(w, "t_inv_used", None)
+        self.C["probe.sampler_temperature_checked"] += 1
+        if ti is None or float(ti) != 1 / float(self.prev):
+            violation(self.out, "temperature_envelope", "sampler_temperature_differs_from_schedule", f"k={k} {var}: sampler got T_inv={ti!r}, schedule says T={self.prev!r}")
+
     def after_temperature(self, w, k):
         t = w.algo.temperature
         self.trace.append((k, t))
